@@ -47,6 +47,55 @@ fn gen_pair(rng: &mut Rng) -> Pair {
             expanded: format!("@@HEADER {b} IMPORTS @HTs FROM Mq2;\nTq1 ::= SEQUENCE {{ {own}, {} }}\n", hcomps.iter().map(|(h, t)| format!("{h} {a} {t}")).collect::<Vec<_>>().join(", ")),
         };
     }
+    if rng.chance(1, 9) {
+        // ---- pieces that reach the target definition only through the expansion and still need linking of their own: a
+        // value reference in a constraint, or an instantiation of a parameterized type, inside the copied component /
+        // selected alternative / class field. The target itself contains no reference of that kind.
+        let v = *rng.pick(&[9i64, 200, 70000]);
+        let lv = format!("@Lv0 INTEGER ::= {v}\n");
+        return match rng.below(5) {
+            0 => Pair {
+                family: "components-of",
+                class: "SEQUENCE,position=last,copied-component-has-value-reference".into(),
+                helpers: format!("{lv}@HTs ::= SEQUENCE {{ hq0 INTEGER (0..@Lv0), hq1 BOOLEAN }}\n"),
+                sugared: "Tq1 ::= SEQUENCE { fq0 NULL, COMPONENTS OF @HTs }\n".into(),
+                expanded: format!("Tq1 ::= SEQUENCE {{ fq0 NULL, hq0 INTEGER (0..{v}), hq1 BOOLEAN }}\n"),
+            },
+            1 => Pair {
+                family: "selection-type",
+                class: "assignment,selected-alternative-has-value-reference".into(),
+                helpers: format!("{lv}@HTc ::= CHOICE {{ sq0 INTEGER (0..@Lv0), sq1 NULL }}\n"),
+                sugared: "Tq1 ::= sq0 < @HTc\n".into(),
+                expanded: format!("Tq1 ::= INTEGER (0..{v})\n"),
+            },
+            2 => Pair {
+                family: "class-field-type",
+                class: "SEQUENCE,field-type-has-value-reference".into(),
+                helpers: format!("{lv}@HCLS ::= CLASS {{ &id INTEGER (0..@Lv0) UNIQUE, &flag BOOLEAN OPTIONAL }} WITH SYNTAX {{ ID &id [FLAG &flag] }}\n"),
+                sugared: "Tq1 ::= SEQUENCE { fq1 @HCLS.&id, fq2 NULL }\n".into(),
+                expanded: format!("Tq1 ::= SEQUENCE {{ fq1 INTEGER (0..{v}), fq2 NULL }}\n"),
+            },
+            3 => Pair {
+                family: "components-of",
+                class: "SEQUENCE,position=last,copied-component-is-an-instantiation".into(),
+                helpers: "@HTp {T} ::= SEQUENCE { aq1 T }\n@HTs ::= SEQUENCE { hq0 @HTp {BOOLEAN}, hq1 NULL }\n".into(),
+                sugared: "Tq1 ::= SEQUENCE { fq0 NULL, COMPONENTS OF @HTs }\n".into(),
+                expanded: "Tq1 ::= SEQUENCE { fq0 NULL, hq0 @HTp {BOOLEAN}, hq1 NULL }\n".into(),
+            },
+            _ => {
+                // an actual parameter that is a reference to a module-level value spelled like an *earlier* dummy reference of
+                // the same template: X.683 8.3 hides the module-level value inside the template only, not in the argument list
+                let w = *rng.pick(&[10i64, 300]);
+                Pair {
+                    family: "parameterized-type",
+                    class: "params=2,instantiations=1,global-value-named-like-dummy,argument-is-that-global".into(),
+                    helpers: format!("size INTEGER ::= {v}\n@HTp {{INTEGER: size, INTEGER: count}} ::= SEQUENCE {{ aq1 INTEGER (0..size), aq2 INTEGER (0..count) }}\n"),
+                    sugared: format!("Tq1 ::= @HTp {{{w}, size}}\n"),
+                    expanded: format!("Tq1 ::= SEQUENCE {{ aq1 INTEGER (0..{w}), aq2 INTEGER (0..{v}) }}\n"),
+                }
+            }
+        };
+    }
     match rng.below(12) {
         // ---- value references / named numbers inside constraints
         0 | 1 => {
